@@ -86,7 +86,7 @@ pub fn mk_nulls<T: ArrowPrimitiveType>(vals: &[T::Native], valid: &[bool], dt: &
 pub fn kernel_name(k: Kernel) -> &'static str {
     use arrow_arith::numeric as n;
     let names: [(Kernel, &'static str); 8] = [(n::add, "add"), (n::sub, "sub"), (n::mul, "mul"), (n::div, "div"), (n::rem, "rem"), (n::add_wrapping, "add_wrapping"), (n::sub_wrapping, "sub_wrapping"), (n::mul_wrapping, "mul_wrapping")];
-    names.iter().find(|(f, _)| *f as usize == k as usize).map(|x| x.1).unwrap_or("?")
+    names.iter().find(|(f, _)| *f as *const () as usize == k as *const () as usize).map(|x| x.1).unwrap_or("?")
 }
 pub fn kernel_by_name(name: &str) -> Option<Kernel> {
     use arrow_arith::numeric as n;
@@ -316,7 +316,7 @@ pub struct UnSpec<'a, T: ArrowPrimitiveType> {
 }
 pub fn eval_unary<T: ArrowPrimitiveType>(spec: &UnSpec<T>, off: usize, xs: &[T::Native], nontrivial: u64, order: u64, st: &mut Stats) {
     let oc = |k: &str| format!("{}:{}", spec.fp, k);
-    let cj = |a: T::Native| json!({"sub": spec.sub, "replay": "unary-kernel", "kernel": spec.label, "function": if spec.kernel as usize == arrow_arith::numeric::neg as usize { "neg" } else { "neg_wrapping" },
+    let cj = |a: T::Native| json!({"sub": spec.sub, "replay": "unary-kernel", "kernel": spec.label, "function": if spec.kernel as *const () as usize == arrow_arith::numeric::neg as *const () as usize { "neg" } else { "neg_wrapping" },
         "type": spec.dt.to_string(), "offset": off, "operand": format!("{a:?}"), "expected": format!("{:?}", (spec.expect)(a))});
     let run = |vals: &[T::Native]| -> CallOut<T::Native> {
         let r = catch(|| {
